@@ -555,7 +555,33 @@ func (a *agg) add(r *Result) {
 	}
 }
 
+// removeStaleScratch deletes scratch directories of simulator processes that
+// no longer exist (killed workers cannot clean up after themselves).
+func removeStaleScratch() {
+	ents, err := os.ReadDir("/dev/shm")
+	if err != nil {
+		return
+	}
+	for _, e := range ents {
+		name := e.Name()
+		if !strings.HasPrefix(name, "bsim-") {
+			continue
+		}
+		pidStr := strings.SplitN(strings.TrimPrefix(name, "bsim-"), "-", 2)[0]
+		pid, err := strconv.Atoi(pidStr)
+		if err != nil {
+			continue
+		}
+		if cmd, err := os.ReadFile(fmt.Sprintf("/proc/%d/cmdline", pid)); err == nil && strings.Contains(string(cmd), "bsim") {
+			continue // that simulator process is alive (maybe another vcheck's)
+		}
+		_ = os.RemoveAll(filepath.Join("/dev/shm", name))
+	}
+}
+
 func sweep(bin string, def *checkDef, check, tier string, baseSeed uint64, cfg tierCfg, nw int, writeEv bool) int {
+	removeStaleScratch()
+	defer removeStaleScratch()
 	start := time.Now()
 	deadline := start.Add(time.Duration(cfg.seconds) * time.Second)
 	findings := loadFindings()
